@@ -197,6 +197,8 @@ var NotImplemented = errors.New("not implemented")
 // need to write it back to the persistence layer. This function will help you do that.
 // Possibly bolt related. Just fyi.
 func (s *Storage) WriteState(ctx context.Context, pid string, mss []*MachineState) error {
+	verifPoint("Storage.WriteState")
+
 	if s == nil {
 		return nil
 	}
